@@ -141,6 +141,21 @@ def mutate(case, kind, pick):
                         sites.append((i, holder, key, path, sub))
                     if kind == "column_ref" and sub[0] == "col":
                         sites.append((i, holder, key, path, sub))
+        if kind == "lit_type" and (not sites or pick([True, False, False])):
+            # a fresh pair: the same step assigns the literal 1 / 1.0 / True (equal as Python values, different SQL)
+            anchors = [j for j in spec.reachable(c) if c["nodes"][j]["op"] != "extend"]
+            if anchors:
+                i = pick(anchors)
+                free = [n for n in ("n", "c", "b", "k", "a") if n not in sch[i].cols]
+                if free:
+                    va, vb = pick([(1, True), (1, 1.0), (0, False), (True, 1.0)])
+                    p2 = spec.clone(c)
+                    p2["nodes"].append({"op": "extend", "src": i, "ops": [[free[0], ["lit", va]]]})
+                    p2["root"] = len(p2["nodes"]) - 1
+                    c["nodes"].append({"op": "extend", "src": i, "ops": [[free[0], ["lit", vb]]]})
+                    c["root"] = len(c["nodes"]) - 1
+                    c["_pair_p"] = p2
+                    return c
         if not sites:
             return None
         i, holder, key, path, sub = pick(sites)
@@ -148,7 +163,7 @@ def mutate(case, kind, pick):
             new = ["lit", sub[1] + 1]
         elif kind == "lit_type":
             v = sub[1]
-            if isinstance(v, int) and v in (0, 1) and pick([True, False]):
+            if isinstance(v, int) and v in (0, 1) and pick([True, True, True, False]):
                 new = ["lit", bool(v)]  # 1 vs True: equal as Python values, different SQL (1 / TRUE)
             elif isinstance(v, int):
                 new = ["lit", float(v)]
